@@ -32,7 +32,7 @@ type C02Case struct {
 var clockPositions = []string{"nb-1s", "nb-1ns", "nb", "inside", "na", "na+1ns", "na+1s"}
 
 func clockAt(w string, pos string) time.Time {
-	if strings.HasPrefix(w, "wide-ski") {
+	if strings.HasPrefix(w, "wide-") {
 		w = "wide"
 	}
 	nb, na := h.WindowBounds(w)
@@ -121,7 +121,8 @@ func genC02(t *rapid.T) C02Case {
 	c.Signer = h.CertRef{Key: rapid.SampledFrom([]string{"T1", "T1", "T2", "T3", "A"}).Draw(t, "signerKey"), Window: rapid.SampledFrom(h.Windows).Draw(t, "window")}
 	if (c.Signer.Key == "T1" || c.Signer.Key == "T2") && rapid.IntRange(0, 3).Draw(t, "skiCert") == 0 {
 		// renewed certificate on an unchanged key, both with a SubjectKeyIdentifier (as openssl makes them)
-		c.Signer.Window = rapid.SampledFrom([]string{"wide-ski", "wide-ski2"}).Draw(t, "skiWindow")
+		// ... or a certificate whose keyUsage lacks digitalSignature (an "encryption" certificate in the trust store)
+		c.Signer.Window = rapid.SampledFrom([]string{"wide-ski", "wide-ski2", "wide-enc"}).Draw(t, "skiWindow")
 	}
 	c.KeyInfo = rapid.SampledFrom([]string{"own", "own", "own", "other", "attacker", "absent", "absent", "empty"}).Draw(t, "keyInfo")
 	c.Tamper = rapid.SampledFrom([]string{"none", "none", "none", "none", "none", "content", "digest", "sigvalue", "extra-ref-first", "extra-ref-last"}).Draw(t, "tamper")
@@ -129,7 +130,7 @@ func genC02(t *rapid.T) C02Case {
 	c.Method = methodFor(c.Signer.Key, rapid.IntRange(0, 3).Draw(t, "method"))
 	c.C14N = rapid.SampledFrom(h.C14Ns).Draw(t, "c14n")
 	// store composition
-	pool := []h.CertRef{{Key: "T1", Window: "wide-ski"}, {Key: "T1", Window: "wide-ski2"}, {Key: "T2", Window: "wide-ski"}, {Key: "T2", Window: "wide-ski2"}, {Key: "T1", Window: "wide"}, {Key: "T2", Window: "wide"}, {Key: "T3", Window: "wide"}, {Key: "U1", Window: "wide"}, {Key: "U2", Window: "wide"},
+	pool := []h.CertRef{{Key: "T2", Window: "wide-enc"}, {Key: "U1", Window: "wide-enc"}, {Key: "T1", Window: "wide-enc"}, {Key: "U2", Window: "wide-enc"}, {Key: "T1", Window: "wide-ski"}, {Key: "T1", Window: "wide-ski2"}, {Key: "T2", Window: "wide-ski"}, {Key: "T2", Window: "wide-ski2"}, {Key: "T1", Window: "wide"}, {Key: "T2", Window: "wide"}, {Key: "T3", Window: "wide"}, {Key: "U1", Window: "wide"}, {Key: "U2", Window: "wide"},
 		{Key: "T1", Window: "past"}, {Key: "T1", Window: "future"}, {Key: "T1", Window: "narrow"}, {Key: "T2", Window: "narrow"}}
 	var store []h.CertRef
 	if c.Signer.Key != "A" && rapid.IntRange(0, 4).Draw(t, "signerInStore") != 0 {
@@ -522,6 +523,24 @@ func TestC02_Grid(t *testing.T) {
 					c.SP.Store = []h.CertRef{{Key: "T1", Window: "wide-ski"}, {Key: "T1", Window: "wide-ski2"}}
 					if order == 1 {
 						c.SP.Store[0], c.SP.Store[1] = c.SP.Store[1], c.SP.Store[0]
+					}
+					finishC02(&c, 0, func(err error) { t.Fatalf("harness: %v", err) })
+					cases = append(cases, c)
+				}
+			}
+		}
+	}
+	// a signing certificate next to "encryption" certificates (keyUsage without digitalSignature) in the store:
+	// the store holds as many certificates as it holds, whatever their key usage; and a member signs with
+	// whatever key usage it has
+	for _, kind := range []string{"response", "assertion", "LogoutRequest", "LogoutResponse"} {
+		for _, ki := range []string{"own", "absent"} {
+			for _, signer := range []h.CertRef{{Key: "T1", Window: "wide"}, {Key: "T2", Window: "wide-enc"}} {
+				for _, order := range []int{0, 1} {
+					c := C02Case{SP: h.BaseSP(), Kind: kind, Signer: signer, KeyInfo: ki, Tamper: "none", ClockPos: "inside", Method: h.RSAMethods[1], C14N: h.C14Ns[0]}
+					c.SP.Store = []h.CertRef{{Key: "T1", Window: "wide"}, {Key: "T2", Window: "wide-enc"}}
+					if order == 1 {
+						c.SP.Store = []h.CertRef{{Key: "U1", Window: "wide-enc"}, {Key: "T2", Window: "wide-enc"}, {Key: "T1", Window: "wide"}}
 					}
 					finishC02(&c, 0, func(err error) { t.Fatalf("harness: %v", err) })
 					cases = append(cases, c)
